@@ -205,77 +205,84 @@ func matchRunTable(st *matchState, t matchTable) {
 	}
 	routers := []*built{mk("plain", 1), mk("cache1", 2, rux.CachingWithNum(1)), mk("cache1000", 2, rux.EnableCaching)}
 	cells, compared := 0, 0
-	for _, m := range st.hdr.Methods {
-		exp := map[int]int{}
-		for _, h := range t.Hits[m] {
-			exp[h[0]] = h[1]
-		}
-		for q := 1; q < len(st.paths); q++ {
-			path := st.paths[q]
-			want := exp[q]
-			cells++
-			for _, b := range routers {
-				for pass := 0; pass < b.passes; pass++ {
-					var route *rux.Route
-					var ps rux.Params
-					panicked := any(nil)
-					func() {
-						defer func() { panicked = recover() }()
-						route, ps, _ = b.r.Match(m, path)
-					}()
-					compared++
-					if panicked != nil {
-						st.report(map[string]any{"kind": "match", "aspect": "lookup-panic", "table": texts, "method": m, "path": path,
-							"router": b.name, "what": fmt.Sprintf("Match panicked: %v", panicked)}, caseDoc)
+	// two sweeps over all cells: in the second one every dynamic cell of the big cache is a hit that is NOT preceded by
+	// its own miss (entries of one route must not share parameters), and the small cache has evicted everything
+	for sweep := 0; sweep < 2; sweep++ {
+		for _, m := range st.hdr.Methods {
+			exp := map[int]int{}
+			for _, h := range t.Hits[m] {
+				exp[h[0]] = h[1]
+			}
+			for q := 1; q < len(st.paths); q++ {
+				path := st.paths[q]
+				want := exp[q]
+				cells++
+				for _, b := range routers {
+					if sweep == 1 && b.name == "plain" {
 						continue
 					}
-					got := 0
-					if route != nil {
-						for i, rt := range b.routes {
-							if rt != nil && (rt == route || (rt.Name() == route.Name() && rt.Path() == route.Path())) {
-								got = i + 1
+					for pass := 0; pass < b.passes-sweep; pass++ {
+						var route *rux.Route
+						var ps rux.Params
+						panicked := any(nil)
+						func() {
+							defer func() { panicked = recover() }()
+							route, ps, _ = b.r.Match(m, path)
+						}()
+						compared++
+						if panicked != nil {
+							st.report(map[string]any{"kind": "match", "aspect": "lookup-panic", "table": texts, "method": m, "path": path,
+								"router": b.name, "what": fmt.Sprintf("Match panicked: %v", panicked)}, caseDoc)
+							continue
+						}
+						got := 0
+						if route != nil {
+							for i, rt := range b.routes {
+								if rt != nil && (rt == route || (rt.Name() == route.Name() && rt.Path() == route.Path())) {
+									got = i + 1
+									break
+								}
+							}
+							if got == 0 {
+								got = -1
+							}
+						}
+						if got != want {
+							gotTxt, wantTxt := "no route", "no route"
+							if got > 0 {
+								gotTxt = texts[got-1]
+							}
+							if want > 0 {
+								wantTxt = texts[want-1]
+							}
+							aspect := "selection"
+							if want == 0 {
+								aspect = "unsound-match"
+							} else if got == 0 {
+								aspect = "lost-route"
+							}
+							st.report(map[string]any{"kind": "match", "aspect": aspect, "table": texts, "method": m, "path": path,
+								"router": b.name, "pass": pass + 1 + 2*sweep, "got": gotTxt, "want": wantTxt,
+								"what": fmt.Sprintf("%s %s on %v (%s, pass %d): code selects %q, C01 selects %q", m, path, texts, b.name, pass+1, gotTxt, wantTxt)}, caseDoc)
+							continue
+						}
+						if want == 0 {
+							continue
+						}
+						// C02: the parameters must be one of the admissible decompositions
+						allowed := st.mat[t.T[want-1].P][q]
+						okp := false
+						for _, bnd := range allowed {
+							if paramsEqual(ps, bnd) {
+								okp = true
 								break
 							}
 						}
-						if got == 0 {
-							got = -1
+						if !okp {
+							st.report(map[string]any{"kind": "params", "aspect": "params", "table": texts, "method": m, "path": path,
+								"router": b.name, "pass": pass + 1 + 2*sweep, "got": map[string]string(ps), "allowed": allowed,
+								"what": fmt.Sprintf("%s %s -> %s (%s, pass %d): params %v not among the decompositions %v", m, path, texts[want-1], b.name, pass+1+2*sweep, ps, allowed)}, caseDoc)
 						}
-					}
-					if got != want {
-						gotTxt, wantTxt := "no route", "no route"
-						if got > 0 {
-							gotTxt = texts[got-1]
-						}
-						if want > 0 {
-							wantTxt = texts[want-1]
-						}
-						aspect := "selection"
-						if want == 0 {
-							aspect = "unsound-match"
-						} else if got == 0 {
-							aspect = "lost-route"
-						}
-						st.report(map[string]any{"kind": "match", "aspect": aspect, "table": texts, "method": m, "path": path,
-							"router": b.name, "pass": pass + 1, "got": gotTxt, "want": wantTxt,
-							"what": fmt.Sprintf("%s %s on %v (%s, pass %d): code selects %q, C01 selects %q", m, path, texts, b.name, pass+1, gotTxt, wantTxt)}, caseDoc)
-						continue
-					}
-					if want == 0 {
-						continue
-					}
-					// C02: the parameters must be one of the admissible decompositions
-					allowed := st.mat[t.T[want-1].P][q]
-					okp := false
-					for _, bnd := range allowed {
-						if paramsEqual(ps, bnd) {
-							okp = true
-							break
-						}
-					}
-					if !okp {
-						st.report(map[string]any{"kind": "params", "aspect": "params", "table": texts, "method": m, "path": path,
-							"router": b.name, "pass": pass + 1, "got": map[string]string(ps), "allowed": allowed,
-							"what": fmt.Sprintf("%s %s -> %s (%s, pass %d): params %v not among the decompositions %v", m, path, texts[want-1], b.name, pass+1, ps, allowed)}, caseDoc)
 					}
 				}
 			}
@@ -283,7 +290,7 @@ func matchRunTable(st *matchState, t matchTable) {
 	}
 	st.mu.Lock()
 	st.sum.Compared += compared
-	st.sum.addInfo("cells", cells)
+	st.sum.addInfo("cells", cells/2)
 	st.mu.Unlock()
 }
 
